@@ -34,7 +34,7 @@ ASSUMPTIONS = [
     "'repeating an example changes nothing' is asserted without pruning options (frequencies legitimately matter to min_strings_per_pattern/max_patterns)",
     'Series input is compared only under default options (pdextract accepts none) and, as pdextract de-duplicates, against the list of distinct strings',
 ]
-REQUIRED_MONITORS = ['prng:seeded_calls', 'prng:sampling_calls_observed', 'groups:compared', 'runs:forked']
+REQUIRED_MONITORS = ['runs:fresh_interpreters', 'prng:seeded_calls', 'prng:sampling_calls_observed', 'groups:compared', 'runs:forked']
 REQUIRED_CLASSES = ['seed=1', 'seed=0', 'sampling=1', 'sampling=0']
 
 
@@ -61,6 +61,9 @@ def gen_case(rng, i):
     c['priors'] = [rng.randrange(10 ** 6) for _ in range(2)]
     c['perm'] = rng.randrange(10 ** 6)
     c['warm'] = rng.randrange(10 ** 6)
+    if c['seed'] is not None and sampling and i % 48 == 0:
+        c['kw']['variableLengthFrags'] = True        # (where what was sampled most often shows in the result)
+        c['fresh'] = [1, rng.randrange(2, 10 ** 6), 'random']
     return c
 
 
@@ -177,6 +180,19 @@ def run_case(ctx, case):
             rec.violation('raises', {'case': case, 'mech': {'exc': m['exc'], 'where': m['where']}, 'facts': m})
             return
         results += [tuple(x) for x in out['results']]
+    if seeded and case.get('fresh'):
+        # the same seeded call in fresh interpreters with other hash salts (PYTHONHASHSEED): a seed has to reproduce the
+        # result from one process to the next, not only inside one
+        cpath = os.path.join(ctx.scratch, 'c14_fresh_case.json')
+        with open(cpath, 'w') as f:
+            json.dump(dict(case, form='list'), f)
+        for salt in case['fresh']:
+            fr = forkserver.real_run(['-m', 'vt.aux.c14_fresh', cpath], env={'PYTHONHASHSEED': str(salt)}, timeout=300)
+            if fr.status == 0 and fr.out.strip():
+                rec.event('runs:fresh_interpreters')
+                results.append(('fresh-interpreter-salt-%s' % salt, case['priors'][0], json.loads(fr.out.strip().splitlines()[-1]), True, 0))
+            else:
+                rec.unspecified('fresh interpreter did not finish')
     rec.event('groups:compared')
     mech = {'seeded': seeded, 'sampling': eff}
     for name, p, r, ok, ns in results:
@@ -203,6 +219,8 @@ def run_case(ctx, case):
                 factor = 'call-history' if x[1] == ref[1] else 'prior-prng-state'
             elif x[0].startswith('repeat'):
                 factor = 'repeated-example'
+            elif x[0].startswith('fresh-interpreter'):
+                factor = 'interpreter'
             elif x[0] in ('dict', 'dict-perm', 'series'):
                 factor = 'form'
             elif x[0] == 'list':
